@@ -43,6 +43,8 @@ struct Inner {
     /// thread holds) while they held the baton; cleared when they reach their next yield point
     blocked: Vec<bool>,
     forced_handoffs: u64,
+    /// kernel thread ids of the sim threads (for the watchdog's look at /proc)
+    os_tid: Vec<i32>,
 }
 
 static STATE: Mutex<Option<Inner>> = Mutex::new(None);
@@ -98,6 +100,7 @@ pub fn install(n: usize, strategy: Strategy, seed: u64, replay: Option<Vec<u8>>)
         labels: BTreeMap::new(),
         blocked: vec![false; n],
         forced_handoffs: 0,
+        os_tid: vec![0; n],
     });
 }
 
@@ -175,6 +178,11 @@ pub fn thread_enter(tid: i32) {
     TID.with(|t| t.set(tid));
     crate::shim::register_thread(tid);
     let mut g = lock();
+    if let Some(i) = g.as_mut() {
+        if (tid as usize) < i.os_tid.len() {
+            i.os_tid[tid as usize] = unsafe { libc::syscall(libc::SYS_gettid) } as i32;
+        }
+    }
     loop {
         match g.as_ref() {
             Some(i) if i.current == tid => return,
@@ -308,6 +316,24 @@ pub fn progress() -> (u64, i32) {
     match lock().as_ref() {
         Some(i) => (i.step, i.current),
         None => (0, -1),
+    }
+}
+
+/// Is the baton holder asleep in the kernel (state S or D in /proc/self/task/<tid>/stat)?
+/// A holder that is merely not getting CPU on a busy machine is runnable (R), not asleep.
+pub fn holder_is_asleep() -> bool {
+    let tid = match lock().as_ref() {
+        Some(i) if i.current >= 0 => i.os_tid.get(i.current as usize).copied().unwrap_or(0),
+        _ => 0,
+    };
+    if tid <= 0 {
+        return false;
+    }
+    let Ok(stat) = std::fs::read_to_string(format!("/proc/self/task/{tid}/stat")) else { return false };
+    // "<pid> (<comm>) <state> ..."
+    match stat.rfind(") ") {
+        Some(p) => matches!(stat.as_bytes().get(p + 2), Some(b'S') | Some(b'D')),
+        None => false,
     }
 }
 
